@@ -31,6 +31,29 @@ fn plain_string(rng: &mut Rng) -> String {
     (0..n).map(|_| *rng.pick(P)).collect()
 }
 
+/// A string with anything in it: control characters (every one of U+0001..U+001F and U+007F turns up), quotes,
+/// backslashes, text outside the BMP.
+fn any_string(rng: &mut Rng) -> String {
+    let n = rng.range(1, 6);
+    (0..n)
+        .map(|_| match rng.below(6) {
+            0 => char::from_u32(rng.range(1, 0x1f) as u32).unwrap().to_string(),
+            1 => (*rng.pick(&["\"", "\\", "\u{7f}", "\u{1f}", "/", "\u{1F600}", "\u{2028}"])).to_string(),
+            _ => plain_string(rng),
+        })
+        .collect()
+}
+
+/// The value of a method argument: like `gen_value`, but a string passed directly (by value or as `&str`) may
+/// hold anything - it never has to be borrowed out of a JSON text.
+pub fn gen_value_arg(t: &Ty, types: &Types, rng: &mut Rng) -> Value {
+    match t {
+        Ty::Str if rng.chance(1, 2) => json!(any_string(rng)),
+        Ty::Optional(i) if matches!(**i, Ty::Str) && rng.chance(1, 2) => json!(any_string(rng)),
+        _ => gen_value(t, types, rng),
+    }
+}
+
 /// A random JSON value of the declared shape. Strings need no escaping (outputs may borrow them).
 pub fn gen_value(t: &Ty, types: &Types, rng: &mut Rng) -> Value {
     match t {
